@@ -57,7 +57,9 @@ def _case(draw):
             # whatever that call does (raise, error object), the client must be ready for the next call
             'pre_bad': draw(st.sampled_from([None] * 7 + ['value-too-large', 'too-many-registers'])),
             # calls made before the judged one that the peer does not answer at all: each of them is bounded like any other call
-            'earlier_failures': draw(st.sampled_from([0, 0, 0, 0, 1, 2, 3]))}
+            'earlier_failures': draw(st.sampled_from([0, 0, 0, 0, 1, 2, 3])),
+            # the client has been in use for a while: its transaction-id counter is about to wrap
+            'tid_start': draw(st.sampled_from([0, 0, 0, 65533, 65534, 65535]))}
 
 
 def strategy(tier):
@@ -204,6 +206,9 @@ def run_case(case):
     nt = any(b[0] not in ('reply',) for b in case['script'])
     with transports.World(peer) as w:
         client = _mk_client(ckind, case, w)
+        if case.get('tid_start'):
+            client.transaction.tid = case['tid_start']
+            labels.append('tid-near-wrap')
         if case.get('pre_bad'):
             from pymodbus.register_write_message import WriteSingleRegisterRequest, WriteMultipleRegistersRequest
             labels.append('unencodable-request-first')
